@@ -21,6 +21,7 @@ ARITH_RULE = ("programs generated from one PRNG (seed*1000+shard); an evaluation
 
 PROPS = {
     "C01": {
+        "extra_modules": ["C01W"],
         "gens": [{"name": "C01", "quick": 3000, "thorough": 12000}, {"name": "muldiv", "harness": "kernharness", "quick": 1500, "thorough": 6000}],
         "needs": ["apiharness"],
         "nontrivial": {"inexact", "range"},
@@ -63,6 +64,7 @@ PROPS = {
         "lean_targets": ["Proofs.GenWordOps", "Proofs.GenTables"],
     },
     "C07": {
+        "extra_modules": ["C07b"],
         "gens": [{"name": "ww", "harness": "kernharness", "quick": 3000, "thorough": 20000},
                  {"name": "vec", "harness": "kernharness", "quick": 4000, "thorough": 30000}],
         "needs": ["kernharness"],
